@@ -31,7 +31,7 @@ Inductive binop :=
 | Or | And | BOr | BXor | BAnd | EqO | NeO | LtO | LeO | GtO | GeO | Shl | Shr
 | Add | Sub | Mul | Div | Mod.
 
-Inductive unop := Not | Neg | BNot | Addr | Deref.
+Inductive unop := Not | Neg | BNot | Addr | Deref | Await | TryE | Checked.   (* the last three: keyword prefix operators of parseUnary *)
 
 (* tokens; unary - & * share TOK_MINUS / TOK_BIT_AND / TOK_MUL with the binary operators *)
 Inductive tok :=
@@ -40,6 +40,7 @@ Inductive tok :=
 | TLP | TRP | TLB | TRB | TDot | TArrow | TQ | TColon | TComma
 | TAsg (o : option binop)            (* =  and  op= *)
 | TSemi | TRBrace | TOther
+| TAwait | TTry | TChecked            (* await / try / checked *)
 | TKw (k : nat).                     (* keyword type: 0 int 1 long 2 short 3 tiny 4 float 5 double 6 bool
                                         7 string 8 char 9 void *)
 
@@ -66,6 +67,7 @@ Inductive expr :=
 | EProp (a : expr)                     (* result only: AST_ERROR_PROPAGATION  e? *)
 | Cast (ty : list tok) (a : expr)      (* AST_CAST_EXPR "( type ) unary"; source construct for keyword types *)
 | SizeofT                              (* result only: sizeof(Type) *)
+| ArrLit (l : list expr)               (* AST_ARRAY_LITERAL  [ e , ... ] *)
 | Generic (n : nat) (call : expr).     (* result only: ident<targs>(args), n type arguments *)
 
 Inductive res (A : Type) := Ok (a : A) | Err | Fuel.
@@ -291,6 +293,9 @@ Definition unary_tok (ts : list tok) : option (unop * list tok) :=
   | TTilde :: r => Some (BNot, r)
   | TOp BAnd :: r => Some (Addr, r)
   | TOp Mul :: r => Some (Deref, r)
+  | TAwait :: r => Some (Await, r)
+  | TTry :: r => Some (TryE, r)
+  | TChecked :: r => Some (Checked, r)
   | _ => None
   end.
 
@@ -463,6 +468,8 @@ with p_primary (f : nat) (ts : list tok) {struct f} : res (expr * list tok) :=
                   else Ok (Call x args, r2))
             | Some r0 => Ok (Var x, r0)
             end
+      | TLB :: r =>       (* parseArrayLiteral *)
+          bind (p_elems f r) (fun lr => let (l, r') := lr in Ok (ArrLit l, r'))
       | TLP :: r =>
           match cast_type r with
           | Some (ty, r') =>   (* "(type) unary" *)
@@ -498,6 +505,23 @@ with p_args (f : nat) (trail : bool) (ts : list tok) {struct f} : res (list expr
             | _ => Err
             end)
       end
+  end
+with p_elems (f : nat) (ts : list tok) {struct f} : res (list expr * list tok) :=
+  match f with
+  | O => Fuel
+  | S f =>
+      (* `[` consumed: while (!check(RBRACKET) && !isAtEnd()) { parseExpression; `,` or `]` must follow };
+         consume(RBRACKET): a trailing comma is accepted ({...} struct-literal elements are not modelled) *)
+      match ts with
+      | TRB :: r => Ok ([], r)
+      | _ =>
+          bind (p_assign f ts) (fun ar =>
+            match ar with
+            | (a, TComma :: r) => bind (p_elems f r) (fun lr => let (l, r') := lr in Ok (a :: l, r'))
+            | (a, TRB :: r) => Ok ([a], r)
+            | _ => Err
+            end)
+      end
   end.
 
 End Parser.
@@ -511,7 +535,8 @@ Definition parse (t : table) (ts : list tok) : res (expr * list tok) :=
 
 (* ------------------------------------------------------------------ printer *)
 Definition utok (u : unop) : tok :=
-  match u with Not => TNot | Neg => TOp Sub | BNot => TTilde | Addr => TOp BAnd | Deref => TOp Mul end.
+  match u with Not => TNot | Neg => TOp Sub | BNot => TTilde | Addr => TOp BAnd | Deref => TOp Mul
+  | Await => TAwait | TryE => TTry | Checked => TChecked end.
 Definition itok (inc : bool) : tok := if inc then TInc else TDec.
 
 (* ranks of contexts / expression kinds, for a table with L levels:
@@ -529,7 +554,7 @@ Definition lev (e : expr) : nat :=
   | Un _ _ | Pre _ _ | Cast _ _ => L + 2
   | Post _ _ => L + 3
   | Idx _ _ | Mem _ _ | Arrow _ _ | MCall _ _ _ _ => L + 4
-  | Num _ | Var _ | Par _ | Call _ _ | Generic _ _ | SizeofT => L + 5
+  | Num _ | Var _ | Par _ | Call _ _ | Generic _ _ | SizeofT | ArrLit _ => L + 5
   end.
 
 Fixpoint pr (c : nat) (e : expr) {struct e} : list tok :=
@@ -565,6 +590,13 @@ Fixpoint pr (c : nat) (e : expr) {struct e} : list tok :=
     | Cast ty a => TLP :: ty ++ TRP :: pr (L + 2) a
     | Generic _ a => pr (L + 5) a
     | SizeofT => [TId 0; TLP; TKw 0; TRP]
+    | ArrLit l =>
+        TLB ::
+        (fix go (l : list expr) : list tok :=
+           match l with
+           | [] => [TRB]
+           | a :: l' => pr 0 a ++ match l' with [] => [TRB] | _ => TComma :: go l' end
+           end) l
     end in
   if c <=? lev e then body else TLP :: body ++ [TRP].
 
@@ -591,6 +623,7 @@ Fixpoint strip (e : expr) : expr :=
   | Cast ty a => Cast ty (strip a)
   | Generic n a => Generic n (strip a)
   | SizeofT => SizeofT
+  | ArrLit l => ArrLit (map strip l)
   end.
 
 (* the types of source casts: a keyword type followed by '*'s *)
@@ -611,6 +644,7 @@ Fixpoint wf (e : expr) : bool :=
   | Tern c a b => wf c && wf a && wf b
   | Asg o l r => wf l && wf r && valid_target o (strip l)
   | Cast ty a => wf_ty ty && wf a
+  | ArrLit l => forallb wf l
   | EProp _ | Generic _ _ | SizeofT => false
   end.
 
@@ -637,6 +671,7 @@ Fixpoint full (e : expr) : expr :=
   | Cast ty a => Cast ty (wrap (full a))
   | Generic n a => Generic n (full a)
   | SizeofT => SizeofT
+  | ArrLit l => ArrLit (map full l)
   end.
 
 (* ------------------------------------------------------------------ hazards of the primary level *)
